@@ -127,32 +127,50 @@ def canon_exception(e: BaseException) -> tuple:
             e.end_offset,
             e.text,
             exc_site(e),
+            _exc_extras(e),
         )
-    return ("exc", type(e).__name__, _scrub(str(e)), exc_site(e))
+    return ("exc", type(e).__name__, _scrub(str(e)), exc_site(e), _exc_extras(e))
+
+
+def _exc_extras(e: BaseException) -> tuple:
+    """What else a caller can observe on the exception object: notes and the classes of its cause / context."""
+    notes = tuple(_scrub(str(n)) for n in getattr(e, "__notes__", ()) or ())
+    cause = type(e.__cause__).__name__ if e.__cause__ is not None else None
+    context = type(e.__context__).__name__ if e.__context__ is not None else None
+    return (notes, cause, context)
 
 
 _ATOMS = (str, bytes, int, float, complex, bool, type(None), type(Ellipsis))
 
 
-def stable_dump(x: object) -> str:
-    """Like ast.dump(include_attributes=True), but free of memory addresses whatever ends up inside a field.
+def stable_dump(x: object, _stack: tuple = ()) -> str:
+    """Like ast.dump(include_attributes=True), but free of memory addresses whatever ends up inside a field, and
+    including what ast.dump leaves out: attributes stored on a node beyond its declared fields and positions.
 
     The pinned tree can put non-AST objects into a tree (e.g. a (Name, token) tuple for '$(l?)'); ast.dump prints
     those with repr(), which contains addresses and made two identical outcomes compare unequal (a false alarm of
     the first sweep)."""
-    if isinstance(x, ast.AST):
-        parts = [f"{n}={stable_dump(getattr(x, n))}" for n in x._fields if hasattr(x, n)]
-        parts += [f"{n}={getattr(x, n)!r}" for n in x._attributes if hasattr(x, n)]
-        return f"{type(x).__name__}({', '.join(parts)})"
     if isinstance(x, _ATOMS):
         return repr(x)
+    if id(x) in _stack:
+        return "<cycle>"
+    st = (*_stack, id(x))
+    if isinstance(x, ast.AST):
+        parts = [f"{n}={stable_dump(getattr(x, n), st)}" for n in x._fields if hasattr(x, n)]
+        parts += [f"{n}={getattr(x, n)!r}" for n in x._attributes if hasattr(x, n)]
+        declared = set(x._fields) | set(x._attributes)
+        extra = sorted(k for k in getattr(x, "__dict__", {}) if k not in declared)
+        parts += [f"+{k}={stable_dump(getattr(x, k), st)}" for k in extra]
+        return f"{type(x).__name__}({', '.join(parts)})"
     if isinstance(x, tuple) and hasattr(x, "_fields"):  # TokenInfo and other named tuples
-        inner = ", ".join(f"{n}={stable_dump(v)}" for n, v in zip(x._fields, x))
+        inner = ", ".join(f"{n}={stable_dump(v, st)}" for n, v in zip(x._fields, x))
         return f"{type(x).__name__}<{inner}>"
     if isinstance(x, list):
-        return "[" + ", ".join(stable_dump(v) for v in x) + "]"
+        return "[" + ", ".join(stable_dump(v, st) for v in x) + "]"
     if isinstance(x, tuple):
-        return "(" + ", ".join(stable_dump(v) for v in x) + ",)"
+        return "(" + ", ".join(stable_dump(v, st) for v in x) + ",)"
+    if isinstance(x, dict):
+        return "{" + ", ".join(f"{stable_dump(k, st)}: {stable_dump(v, st)}" for k, v in x.items()) + "}"
     if isinstance(x, enum.Enum):
         return f"{type(x).__name__}.{x.name}"
     return f"<{type(x).__name__}>"
